@@ -19,7 +19,7 @@ PID = 'C15'
 
 META = {
     'technique': 'ownership pairing of allocation/release facts derived from macro-expansion stacks (per type-resolved Struct.field, kind and level), call-graph reachability from the deinit API through resolved destructor pointers, set comparison of consumer SRMs vs shut-down SRMs, dominance on API error paths',
-    'text': 'Decides the structural half of teardown completeness: every field that ever receives an allocation, mutex, semaphore or thread has a matching release in the destructor chain reachable from deinit; every pipeline consumer queue is shut down so its thread can leave; thread functions use the shutdown-aware get; the component structure is never freed before its private handle. Quantifies over all teardown points because the destructor chain is the only release path and is checked field by field. Does not measure memory growth, and the fact that some kernel waits cannot be woken is recorded as a finding, not proved absent.',
+    'text': 'Decides the structural half of teardown completeness: every field that ever receives an allocation, mutex, semaphore or thread has a matching release in the destructor chain reachable from deinit; every pipeline consumer queue is shut down so its thread can leave; thread functions use the shutdown-aware get; the component structure is never freed before its private handle. Quantifies over all teardown points because the destructor chain is the only release path and is checked field by field. Does not measure memory growth, and the fact that some kernel waits cannot be woken is recorded as a finding, not proved absent. Also decided: where cells of a member are allocated in a loop, the release loops of the destructor cover the same index range (bounds compared after canonical expansion and, where they differ, by finite evaluation over the inputs they share).',
     'note': 'decoder memory registered in the memory map (EB_MALLOC_DEC family) is released by the list walk in svt_av1_dec_deinit, which is checked to exist; ownership is field-based (two different objects of one struct type share the verdict)',
     'ref': 'DESIGN.md section 5 C15',
 }
